@@ -349,6 +349,8 @@ class Interpolation(object):
         :rtype: None
         """
 
+        if not isinstance(tol, (int, float)):
+            raise TypeError("Invalid input value")
         self._tol = tol
         return
 
